@@ -535,14 +535,15 @@ func ruleRec(c *Ctx) {
 	}
 	if fn := p.Fn("(*server.Subscription).handleReaccess"); fn != nil {
 		c.inst(1)
-		fFlags := p.Field("server.Subscription.flags")
 		la := p.Method("server.Subscription.loadAccess")
 		ok := false
 		for _, call := range callsIn(fn) {
 			if _, is := isCallTo(call, la); is {
-				for _, st := range p.stores[fFlags] {
-					if st.Parent() == fn && dominates(st, call) {
-						ok = true
+				for _, fFlags := range p.flagFields("server.Subscription.flags") {
+					for _, st := range p.stores[fFlags] {
+						if st.Parent() == fn && dominates(st, call) {
+							ok = true
+						}
 					}
 				}
 			}
